@@ -201,6 +201,22 @@ fn check_cycle(ctx: &Ctx, c: &Cyc, pool: &[String], loc: &mut Local) {
         unknown.push(n.clone());
       }
     }
+    // recombinations inside the cycle: first character of one published name + the rest of another
+    // (for composite names such as stem+branch this yields the well-formed but non-existent pairs, e.g. 甲丑)
+    for a in &c.names {
+      for b in &c.names {
+        let mut ca = a.chars();
+        let first = match ca.next() {
+          Some(ch) => ch,
+          None => continue,
+        };
+        let rest: String = b.chars().skip(1).collect();
+        let cand = format!("{}{}", first, rest);
+        if !c.names.contains(&cand) && !unknown.contains(&cand) {
+          unknown.push(cand);
+        }
+      }
+    }
     for u in unknown {
       loc.transitions += 1;
       if let Ok((idx, name, _)) = guard(|| fnm(&u)) {
@@ -374,6 +390,22 @@ fn linear_units<'a>(civ: &'a Civil, lt: &'a crate::refmodel::lunar::LunTable) ->
     },
     (0..nl).collect(),
     sym(&[1, 12, 13, 25]),
+  ));
+  // lunar months, multi-decade steps (a step of 235 months crosses 19 lunar years, which hold 234..236 months)
+  v.push((
+    Lin {
+      unit: "LunarMonth(long steps)",
+      lo: 0,
+      hi: nl - 1,
+      fmt: Box::new(move |o| lt.l[o as usize].key()),
+      step: Box::new(move |o, a, b| {
+        let l = lt.l[o as usize];
+        let m = LunarMonth::from_ym(l.y as isize, l.m as isize).next(a as isize).next(b as isize);
+        lt.pos(m.get_year(), m.get_month_with_leap()).map(|p| p as i64)
+      }),
+    },
+    (0..nl).step_by(25).collect(),
+    sym(&[1, 235, 470]),
   ));
   // solar terms: ordinal = 24 * year + index
   v.push((
